@@ -50,10 +50,12 @@ def phases(tier: str) -> List[Dict[str, Any]]:
         return [
             {"name": "track", "runs": 256, "heavy": True, "timeout": 240, "wall": 100},
             {"name": "analyse", "runs": 160, "heavy": True, "timeout": 240, "wall": 60},
+            {"name": "known", "runs": 2, "heavy": True, "timeout": 240, "wall": 60},
         ]
     return [
         {"name": "track", "runs": 6000, "heavy": True, "timeout": 400, "wall": 1800},
         {"name": "analyse", "runs": 4000, "heavy": True, "timeout": 400, "wall": 900},
+        {"name": "known", "runs": 2, "heavy": True, "timeout": 240, "wall": 60},
     ]
 
 
@@ -62,6 +64,12 @@ def generate(seed: int, tier: str, phase: str) -> Dict[str, Any]:
     plan: Dict[str, Any] = {"phase": phase, "timeout": 300, "shrink_budget": 60, "pseed": r.randrange(1 << 30),
                             "opts": {"vocab": "track", "depth": [1, r.choice([3, 6, 10])], "avoid": []}}
     ops: List[Dict[str, Any]] = []
+    if phase == "known":
+        # deterministic probe of the recorded finding D13: a stored program (expanded IR, so it
+        # does not depend on the generator) on which tracking changes the last bits
+        plan["spec_file"] = "engines/known_specs/d13_track_rounding.json"
+        plan["ops"] = [{"op": "run", "mode": "bwd_subset", "k": 1, "gseed": 1, "mask": [True, False, False]}]
+        return plan
     if phase == "analyse":
         for _ in range(r.choice([1, 2])):
             ops.append({"op": "analyse", "k": r.randrange(3), "gseed": r.randrange(4)})
@@ -181,7 +189,14 @@ def execute(plan: Dict[str, Any]) -> Dict[str, Any]:
     def probe(name: str, k: int = 1) -> None:
         probes[name] = probes.get(name, 0) + k
 
-    spec = proggen.generate(random.Random(plan["pseed"]), plan["opts"])
+    if plan.get("spec_file"):
+        import json
+        import os
+
+        with open(os.path.join(core.VERIF, plan["spec_file"])) as f:
+            spec = json.load(f)["spec"]
+    else:
+        spec = proggen.generate(random.Random(plan["pseed"]), plan["opts"])
     sig = "/".join(_opseq(spec))
     res["opseq"].append("prog:" + sig)
     original = programs.ProgModule(spec)
@@ -442,7 +457,7 @@ def _analyse(plan: Dict[str, Any], spec: Dict[str, Any], original: Any, inputs: 
 
 
 def neutralise(plan: Dict[str, Any], finding: Dict[str, Any]) -> Optional[Dict[str, Any]]:
-    if finding.get("id") == "D13" and plan.get("phase") == "track":
+    if finding.get("id") == "D13" and plan.get("phase") in ("track", "known"):
         c = copy.deepcopy(plan)
         c["rounding_tol"] = 1e-5  # counterfactual: compared at float-rounding level
         return c
